@@ -120,7 +120,7 @@ def _drive_reads(env, s, k, reqs, pos, st=S0, notes=()):
     """Issue the requests one after the other, pumping READ events while one is pending.
     Returns the stream position after the last completed read."""
     _TRACK["after_failed"] = False
-    for kind, n, m in reqs:
+    for idx, (kind, n, m) in enumerate(reqs):
         kind = conc(kind, 0, 6)
         n = conc(n, 0, 8)          # reaches BA(n) / slices: concrete per path; m stays symbolic
         holder = []
@@ -221,6 +221,8 @@ def _drive_reads(env, s, k, reqs, pos, st=S0, notes=()):
                 reached("until_close_done")
         for tag in notes:                  # scenario tags of the caller, raised once the read completed
             reached(tag)
+        if st is S2 and idx == 1 and kind == RU:
+            reached("long_second_read")
         notes = ()
         assert got == st.data[pos:pos + len(got)], \
             "read returned %r but the stream continues with %r" % (got, st.data[pos:pos + len(got) + 2])
@@ -363,21 +365,21 @@ def _cut_tags(pos0, b0, j, chunk, rscript):
 def pre_long(si: int, j: int, md: int, b0: int, chunk: int, rscript: List[int], tailreq: int) -> bool:
     if not (0 <= si < len(STARTS2) and 0 <= j < P.J2 and 0 <= md <= 2 and (md != 1 or P.EXACT) and 0 <= b0 <= P.B0):
         return False
-    if not (P.CLO <= chunk <= P.C and len(rscript) <= P.K and 0 <= tailreq <= P.TR):
+    if not (P.CLO <= chunk <= P.C and len(rscript) <= P.K and 0 <= tailreq <= P.TR and (tailreq == 0 or md == 0)):
         return False
     for a in rscript:
         if not 0 <= a <= 3:
             return False
-    return in_shard(si + 4 * j + 16 * (1 if md > 0 else 0))
+    return in_shard(si + 4 * j + 4 * P.J2 * (1 if md > 0 else 0))
 
 
 @harness(
     pre=pre_long,
-    quick=dict(J2=3, EXACT=0, B0=2, CLO=3, C=3, K=3, TR=0, timeout=100, reach_timeout=60),
-    thorough=dict(J2=4, EXACT=1, B0=3, CLO=2, C=4, K=4, TR=1, timeout=1500, reach_timeout=200),
-    nshards=dict(quick=32, thorough=32),
+    quick=dict(J2=3, EXACT=0, B0=2, CLO=3, C=3, K=3, TR=1, timeout=100, reach_timeout=60),
+    thorough=dict(J2=4, EXACT=1, B0=3, CLO=2, C=4, K=4, TR=2, timeout=1500, reach_timeout=200),
+    nshards=dict(quick=24, thorough=32),
     reach=["long_split_2plus", "long_split_3pieces", "long_after_false_start", "long_event_boundary",
-           "long_unsatisfiable"],
+           "long_unsatisfiable", "long_second_read"],
     units=_R_UNITS,
     stubs=_R_STUBS[:2] + [
         "stream content is the concrete 24-byte DATA2 in which the 4-byte delimiter CRLFCRLF and the 3-byte "
@@ -411,6 +413,8 @@ def h_read_long(si: int, j: int, md: int, b0: int, chunk: int, rscript: List[int
         m = -1 if md == 0 else full if md == 1 else full - 1
         reqs = [(RU, j, m)]
         if tailreq == 1:
+            reqs.append((RU, (j + 1) % P.J2, -1))     # a second long-delimiter read continues from the leftovers
+        elif tailreq == 2:
             reqs.append((RBP, 3, -1))
         _drive_reads(env, s, k, reqs, pos0, S2, notes)
 
